@@ -210,7 +210,15 @@ def c05(ctx):
     n = 12 if ctx.quick else 80
     outs = run_conc(ctx, drv, n, ctx.seed) + run_conc(ctx, drv, n // 2, ctx.seed + 7, profile="reader")
     stats = judge_conc(ctx, outs, "c05", exact=False, filt=_pos_is_read)
-    std_cov(ctx, stats, "concurrent scenarios (2-5 goroutines, 2-4 shared keys, long-lived readers, rmw, write skew, "
+    # long-lived readers held open across commits, every flusher stage and compaction (steered)
+    n2, ops2 = (48, 40) if ctx.quick else (320, 80)
+    stats2 = judge_seq(ctx, run_seq_sharded(ctx, drv, "c05", n2, ops2, ctx.seed), "c05r", exact=False,
+                       filt=_pos_is_read)
+    for k in ("traces", "events", "accepted", "nontrivial", "commits"):
+        stats[k] += stats2[k]
+    stats["steered_flusher_stages"] = stats2["fl_steps"]
+    std_cov(ctx, stats, "steered scripts with up to three long-lived readers re-reading every key after every "
+                        "commit and every released flusher stage (flush, compaction with version discard); concurrent scenarios (2-5 goroutines, 2-4 shared keys, long-lived readers, rmw, write skew, "
                         "blind writes, abandons) on small thresholds; judged hint-free against AbsTxn; only "
                         "rejections at a Get/Begin are attributed to C05; non-trivial = commits happened and table "
                         "files were written while the transactions ran")
